@@ -113,9 +113,26 @@ func diskPath(kind string, n int, base string) (string, error) {
 	return p, nil
 }
 
-func openFile(f FileSpec) (runtime.NamedReadCloser, error) {
+func openFile(f FileSpec, x *execEnv) (runtime.NamedReadCloser, error) {
 	var nrc runtime.NamedReadCloser
-	if f.Src == "osfile" {
+	switch {
+	case f.Src == "env":
+		if f.Env == nil {
+			return nil, fmt.Errorf("file source env without description")
+		}
+		v, err := newEnvSource(f.Dir+f.Base, content(f.Kind, f.Len), *f.Env, true, f.Declared, &x.stats)
+		if err != nil {
+			return nil, err
+		}
+		return v.(runtime.NamedReadCloser), nil // carries its own ContentType method when declared
+	case f.Src == "fifo":
+		fh, release, err := openFIFO(f.Base, content(f.Kind, f.Len))
+		if err != nil {
+			return nil, err
+		}
+		x.release = append(x.release, release)
+		nrc = fh
+	case f.Src == "osfile":
 		p, err := diskPath(f.Kind, f.Len, f.Base)
 		if err != nil {
 			return nil, err
@@ -125,7 +142,7 @@ func openFile(f FileSpec) (runtime.NamedReadCloser, error) {
 			return nil, err
 		}
 		nrc = fh
-	} else {
+	default:
 		pol := strings.TrimPrefix(f.Src, "named-")
 		nrc = runtime.NamedReader(f.Dir+f.Base, &src{data: content(f.Kind, f.Len), policy: pol})
 	}
@@ -231,10 +248,19 @@ type observed struct {
 	replayErr  string
 	streamed   bool // the body was an io.Pipe fed by the multipart goroutine when it was sent
 	authCalled int
+	delivered  int64 // injected faults the scripted sources actually returned to the library
+	lies       int64 // lying answers the scripted sources actually gave
+}
+
+// execEnv is the per-execution environment: fault statistics and things to release.
+type execEnv struct {
+	stats   envStats
+	release []func()
 }
 
 func execute(c Case) (o observed) {
 	var req *http.Request
+	x := &execEnv{}
 	defer func() {
 		if e := recover(); e != nil {
 			o.panicked = fmt.Sprint(e)
@@ -242,6 +268,10 @@ func execute(c Case) (o observed) {
 		if req != nil && req.Body != nil {
 			_ = req.Body.Close() // releases the multipart goroutine if the body was not drained
 		}
+		for _, rel := range x.release {
+			rel()
+		}
+		o.delivered, o.lies = x.stats.delivered.Load(), x.stats.lies.Load()
 	}()
 	rt := newRuntime()
 	for mt, p := range rt.Producers {
@@ -255,7 +285,7 @@ func execute(c Case) (o observed) {
 		case "value":
 			return r.SetBodyParam(makeValue(c.Value))
 		case "reader":
-			rd, err := makeReader(*c.Reader)
+			rd, err := makeReader(*c.Reader, x)
 			if err != nil {
 				setupErr = err
 				return err
@@ -274,7 +304,7 @@ func execute(c Case) (o observed) {
 			for _, ff := range c.Files {
 				files := make([]runtime.NamedReadCloser, 0, len(ff.Files))
 				for _, f := range ff.Files {
-					nrc, err := openFile(f)
+					nrc, err := openFile(f, x)
 					if err != nil {
 						setupErr = err
 						return err
@@ -380,9 +410,21 @@ func execute(c Case) (o observed) {
 	return o
 }
 
-func makeReader(rs ReaderSpec) (interface{}, error) {
+func makeReader(rs ReaderSpec, x *execEnv) (interface{}, error) {
 	data := content(rs.Kind, rs.Len)
 	switch rs.Flavor {
+	case "env":
+		if rs.Env == nil {
+			return nil, fmt.Errorf("reader flavor env without description")
+		}
+		return newEnvSource("payload.bin", data, *rs.Env, rs.Env.Closer, "", &x.stats)
+	case "fifo":
+		fh, release, err := openFIFO("payload.bin", data)
+		if err != nil {
+			return nil, err
+		}
+		x.release = append(x.release, release)
+		return fh, nil
 	case "plain":
 		return &src{data: data, policy: rs.Policy}, nil // io.Reader, not a Closer
 	case "closer":
